@@ -10,7 +10,7 @@ path).  It is the numeric sibling of fmt.Evaluator and is used by the closed-for
 """
 import ast
 import itertools
-from .model import AnalysisError, norm, dotted, walk_no_nested
+from .model import AnalysisError, norm, dotted, walk_no_nested, parent
 
 MAX_PATHS = 256
 
@@ -205,7 +205,10 @@ class SymExec:
            (star_kw and (g.node.args.kwarg is None or len(call.keywords) != 1)):
             return None         # **d is only passed through to a callee that takes **kw itself
         if any(isinstance(n, (ast.Yield, ast.YieldFrom)) for n in walk_no_nested(g.node)):
-            return None
+            # a generator: looked through (as the sequence of what it yields) when loops are bound
+            if not self.bind_loops or any(isinstance(n, (ast.Yield, ast.YieldFrom)) and
+                                          not isinstance(parent(n), ast.Expr) for n in walk_no_nested(g.node)):
+                return None
         return g
 
     def _local_paths(self, call, env):
@@ -286,6 +289,16 @@ class SymExec:
                       self.max_paths, self.objects, self.effects, self.volatile, self.props, self.private_only)
         sub._ntok = self._ntok
         paths = sub.run(env=dict(bind))
+        is_gen = any(isinstance(n, (ast.Yield, ast.YieldFrom)) for n in walk_no_nested(g.node))
+        if is_gen:
+            for p in paths:
+                if p.end != 'raise':
+                    if p.ret is not None:
+                        return None
+                    p.ret = _yielded(p)
+                    if p.ret is None:
+                        return None
+                    p.end = 'return'
         if with_effects:
             return [p for p in paths if p.end != 'raise'] or None
         res = []
@@ -942,6 +955,28 @@ def _subst_inner(sx, n, env2):
     return new
 
 
+def _yielded(p):
+    """what a generator yields on path p, as a sequence: [a, b, *_each(c, IT)] - a yield inside a loop
+    stands for one element per element of the loop's iterable; None when that cannot be written down"""
+    elts = []
+    for ev in p.events:
+        if ev[0] not in ('yield', 'yield-from'):
+            continue
+        v = ev[1]
+        for loop_txt in reversed(ev[-1]):
+            try:
+                it = ast.parse(loop_txt, mode='eval').body
+            except SyntaxError:
+                return None
+            v = ast.Call(func=ast.Name(id='_each', ctx=ast.Load()), args=[v, it], keywords=[])
+        if ev[-1] or ev[0] == 'yield-from':
+            v = ast.Starred(value=v, ctx=ast.Load())
+        elts.append(v)
+    if len(elts) == 1 and isinstance(elts[0], ast.Starred) and _is_each(elts[0].value):
+        return elts[0].value
+    return ast.List(elts=elts, ctx=ast.Load())
+
+
 def _each_of(v):
     """(element, iterable) when v is _each(E, IT) or the list [*_each(E, IT)] / tuple(...) of it"""
     if isinstance(v, ast.Call) and isinstance(v.func, ast.Name) and v.func.id in ('tuple', 'list') and len(v.args) == 1:
@@ -1053,6 +1088,11 @@ def simplify(e):
                 return ast.Constant(value=isinstance(n.ops[0], ast.IsNot))
             if isinstance(l_, ast.Constant) and l_.value is None:
                 return ast.Constant(value=isinstance(n.ops[0], ast.Is))
+        if isinstance(n, ast.Call) and isinstance(n.func, ast.Attribute) and isinstance(n.func.value, ast.Name) and \
+           n.func.value.id == 'operator' and len(n.args) == 2 and not n.keywords and \
+           n.func.attr in ('add', 'sub', 'mul', 'truediv'):
+            op_ = {'add': ast.Add, 'sub': ast.Sub, 'mul': ast.Mult, 'truediv': ast.Div}[n.func.attr]()
+            return ast.BinOp(left=n.args[0], op=op_, right=n.args[1])
         if isinstance(n, ast.UnaryOp) and isinstance(n.op, ast.Not) and isinstance(n.operand, ast.Constant):
             return ast.Constant(value=not n.operand.value)
         if isinstance(n, ast.IfExp) and isinstance(n.test, ast.Constant):
@@ -1275,6 +1315,47 @@ def module_constants(module):
     # constants (mu_0, epsilon_0 ...) are physical quantities that formulas refer to by name
     out = {nm: v for nm, v in vals.items() if counts.get(nm) == 1 and literal(v) and
            (isinstance(v, ast.Tuple) or (isinstance(v, ast.Constant) and isinstance(v.value, str)) or nm.startswith('_'))}
+    # private names computed once from literals, other constants and module-level functions
+    # (_ROW = '%s ' * 4, _ZERO = sep.join(['E '] + ['0'] * 4), _HEAD = 'A%sB' % _spaces(3, 4))
+    funcs = {st.name for st in module.tree.body if isinstance(st, ast.FunctionDef)}
+
+    def resolve(v, busy):
+        """v with constant names replaced, or None when v is not a constant expression"""
+        if isinstance(v, ast.Constant):
+            return v
+        if isinstance(v, (ast.Tuple, ast.List)):
+            el = [resolve(x, busy) for x in v.elts]
+            return None if any(x is None for x in el) else v.__class__(elts=el, ctx=ast.Load())
+        if isinstance(v, ast.BinOp) and isinstance(v.op, (ast.Add, ast.Mult, ast.Mod, ast.Sub)):
+            a, b = resolve(v.left, busy), resolve(v.right, busy)
+            return None if a is None or b is None else ast.BinOp(left=a, op=v.op, right=b)
+        if isinstance(v, ast.UnaryOp) and isinstance(v.op, (ast.USub, ast.UAdd)):
+            a = resolve(v.operand, busy)
+            return None if a is None else ast.UnaryOp(op=v.op, operand=a)
+        if isinstance(v, ast.Name):
+            if v.id in out:
+                return out[v.id]
+            if v.id in busy or counts.get(v.id) != 1 or not v.id.startswith('_'):
+                return None
+            r = resolve(vals[v.id], busy | {v.id})
+            return r
+        if isinstance(v, ast.Call) and not v.keywords and not any(isinstance(a, ast.Starred) for a in v.args):
+            args = [resolve(a, busy) for a in v.args]
+            if any(a is None for a in args):
+                return None
+            if isinstance(v.func, ast.Name) and v.func.id in funcs:
+                return ast.Call(func=v.func, args=args, keywords=[])
+            if isinstance(v.func, ast.Attribute) and v.func.attr in ('join', 'rstrip', 'ljust', 'rjust'):
+                base = resolve(v.func.value, busy)
+                if base is not None:
+                    return ast.Call(func=ast.Attribute(value=base, attr=v.func.attr, ctx=ast.Load()), args=args, keywords=[])
+        return None
+    for nm, v in vals.items():
+        if nm in out or counts.get(nm) != 1 or not nm.startswith('_') or isinstance(v, ast.Constant):
+            continue
+        r = resolve(v, frozenset([nm]))
+        if r is not None and sum(1 for _ in ast.walk(r)) <= 400:
+            out[nm] = r
     _MODULE_CONSTS[key] = out
     return out
 
@@ -1353,6 +1434,13 @@ def leading_literal(e):
     """the literal text a string-valued expression starts with (None when it cannot be told)"""
     if isinstance(e, ast.Constant) and isinstance(e.value, str):
         return e.value
+    if isinstance(e, (ast.Call, ast.BinOp)) and not isinstance(getattr(e, 'op', None), ast.Mod):
+        try:
+            t = fold_text(e)
+            if isinstance(t, str):
+                return t
+        except ValueError:
+            pass
     if isinstance(e, ast.BinOp) and isinstance(e.op, (ast.Add, ast.Mod, ast.Mult)):
         l = leading_literal(e.left)
         if l == '' and isinstance(e.op, ast.Add):
